@@ -13,6 +13,7 @@
 -/
 import NutsProofs.Lemmas.Replay
 import NutsProofs.Lemmas.ReopenCrash
+import NutsProofs.Lemmas.ReopenAll
 namespace NutsProofs.C10
 open Nuts Nuts.Model Nuts.Model.DB NutsProofs
 
@@ -96,5 +97,26 @@ theorem C10_crash_after_marker_recovers_poststate (opt0 : Opts) (ops : List Op) 
   have hinv : LogInv s := logInv_ops _ _ (logInv_init opt0) hok
   obtain ⟨h1, h2, _, h4⟩ := open_rebuilds s hinv opt
   exact ⟨h1, h2, h4⟩
+
+open NutsProofs.Reopen NutsProofs.ReopenAll in
+/-- **C10 (history level, all structures, key+value mode).** After any history of successfully committed
+transactions over key/value, list, set and sorted-set records (with reopens), a transaction with a fresh id
+starts to commit and the process dies when `j` of its records — any number short of the last, of any of the
+four structures — have reached the files. `Open` on what is left succeeds and rebuilds the key/value index,
+the lists, the sets, the sorted sets and the committed ids of the state before the transaction: nothing of
+the partial transaction is visible in any structure, nothing committed is lost. -/
+theorem C10_crash_before_marker_all_structures (opt0 : Opts) (ops : List OpA) (hok : OpsOkA (openDB opt0 []).1 ops)
+    (t : List Rec) (tid : Nat) (j : Nat) (ht : ∀ r ∈ t, r.txid = tid ∧ r.status = 0)
+    (hfresh : ∀ x ∈ allRecs (ops.foldl stepA (openDB opt0 []).1).files, x.1.txid ≠ tid)
+    (opt : Opts) (hm : opt.mode = 0) :
+    let s := ops.foldl stepA (openDB opt0 []).1
+    let s' := (openDB opt (crashAfterA s t j).files).1
+    (openDB opt (crashAfterA s t j).files).2 = .ok () ∧ s'.kv = normKV s.kv ∧
+    s'.lists = s.lists ∧ s'.sets = s.sets ∧ s'.zsets = s.zsets ∧
+    (∀ id, id ∈ s'.committed ↔ id ∈ s.committed) := by
+  intro s s'
+  have hinv : AllInv s := allInv_ops ops _ (allInv_init opt0) hok
+  obtain ⟨h1, h2, h3, h4⟩ := crash_in_commit_any s hinv t tid j ht hfresh opt hm
+  exact ⟨h1, h2, congrArg SV.lists h3, congrArg SV.sets h3, congrArg SV.zsets h3, h4⟩
 
 end NutsProofs.C10
